@@ -218,7 +218,7 @@ static size_t ref_utf8_path(const ref_cfg_t *cf, const unsigned char *map, int c
     while (i < n) {
         unsigned char b = in[i];
         size_t need;
-        uint32_t cp;
+        uint32_t cp = 0;
         unsigned char second_max = 0xBF;
         if (b < 0x80) { if (convert) out[o++] = b; i += 1; continue; }
         if (b >= 0xC0 && b <= 0xDF) { need = 1; cp = b & 0x1Fu; }
@@ -248,7 +248,10 @@ static size_t ref_utf8_path(const ref_cfg_t *cf, const unsigned char *map, int c
                 rf_react(fx, cf->utf8_invalid_unwanted);   /* CHOICE(6): reaction only when the path is treated as UTF-8 */
                 out[o++] = cf->bestfit_replacement_byte;
             }
-            i += (need == 0) ? 1 : (truncated ? n - i : k);
+            /* where decoding resumes: the converting decoder re-reads the byte that broke the sequence (test InvalidUtf8);
+             * the validating pass consumes it together with the broken sequence.  CHOICE(8): the documentation says
+             * nothing about re-synchronisation; the two real functions differ and the reference follows each. */
+            i += (need == 0) ? 1 : (truncated ? n - i : (convert ? k : k + 1));
             continue;
         }
         seen_multibyte = 1;
@@ -353,28 +356,32 @@ static size_t ref_urldecode(const ref_cfg_t *cf, const unsigned char *map, const
         unsigned char b = in[i];
         if (b == '%') {
             size_t after = n - i - 1;
-            int invalid = 0, can_process = 0, is_u = 0, emit = 1;
-            if (after < 2) invalid = 1;
-            else if (cf->u_encoding_decode && (in[i + 1] == 'u' || in[i + 1] == 'U')) {
+            int is_u = 0, well_formed = 0, can_process = 0;
+            if (after < 2) {
+                /* too short for any escape */
+            } else if (cf->u_encoding_decode && (in[i + 1] == 'u' || in[i + 1] == 'U')) {
                 is_u = 1;
-                rf_react(fx, cf->u_encoding_unwanted);
-                if (after >= 5 && rf_ishex(in[i + 2]) && rf_ishex(in[i + 3]) && rf_ishex(in[i + 4]) && rf_ishex(in[i + 5])) {
-                    b = rf_u_generic(cf, map, in + i + 2, fx);
-                    i += 6;
-                } else { invalid = 1; can_process = (after >= 5); }
-            } else if (rf_ishex(in[i + 1]) && rf_ishex(in[i + 2])) { b = rf_hexbyte(in + i + 1); i += 3; }
-            else { invalid = 1; can_process = 1; }
-            if (invalid) {
+                can_process = (after >= 5);
+                well_formed = can_process && rf_ishex(in[i + 2]) && rf_ishex(in[i + 3]) && rf_ishex(in[i + 4]) && rf_ishex(in[i + 5]);
+            } else {
+                can_process = 1;
+                well_formed = rf_ishex(in[i + 1]) && rf_ishex(in[i + 2]);
+            }
+            if (is_u) rf_react(fx, cf->u_encoding_unwanted);
+            if (!well_formed) {
                 fx->flags |= RF_URLEN_INVALID_ENCODING;
                 rf_react(fx, cf->url_encoding_invalid_unwanted);
-                if (cf->url_encoding_invalid_handling == RF_REMOVE_PERCENT) { i += 1; emit = 0; }
-                else if (cf->url_encoding_invalid_handling == RF_PROCESS_INVALID && can_process) {
-                    if (is_u) { b = rf_u_generic(cf, map, in + i + 2, fx); i += 6; }
-                    else { b = rf_hexbyte(in + i + 1); i += 3; }
-                } else i += 1;
             }
-            if (!emit) continue;
-            if (b == 0) {
+            if (well_formed || (cf->url_encoding_invalid_handling == RF_PROCESS_INVALID && can_process)) {
+                if (is_u) { b = rf_u_generic(cf, map, in + i + 2, fx); i += 6; }
+                else { b = rf_hexbyte(in + i + 1); i += 3; }
+            } else if (cf->url_encoding_invalid_handling == RF_REMOVE_PERCENT) {
+                i += 1;
+                continue;                            /* the percent sign disappears */
+            } else {
+                i += 1;                              /* the percent sign stays */
+            }
+            if (b == 0) {                            /* whatever the escape was, a zero byte out of it is an encoded NUL */
                 rf_react(fx, cf->nul_encoded_unwanted);
                 fx->flags |= RF_URLEN_ENCODED_NUL;
                 if (cf->nul_encoded_terminates) return o;
